@@ -140,7 +140,9 @@ func Check(spec *PropertySpec, tier string, out *os.File) int {
 				fatal = append(fatal, fmt.Sprintf("%s[%s]: %s", rn, arch, f))
 			}
 			if len(res.Obligations) < r.Min {
-				fatal = append(fatal, fmt.Sprintf("%s[%s]: instance floor: found %d instances, confirmed minimum is %d (a rule that lost its targets cannot pass)", rn, arch, len(res.Obligations), r.Min))
+				// a rule that lost targets it had on the reference tree cannot pass: reported as a violation of its own
+				all = append(all, Obligation{Rule: rn, Key: rn + "|instance-floor|" + arch, Pos: "-", Status: Violated, Verdict: "violated", Nontrivial: true,
+					Detail: fmt.Sprintf("instance floor: the rule found %d instances, the minimum confirmed on the reference tree is %d: constructs the rule used to check have disappeared or changed shape so that they are no longer recognised", len(res.Obligations), r.Min)})
 			}
 			for _, n := range res.Notes {
 				notes = append(notes, fmt.Sprintf("%s[%s]: %s", rn, arch, n))
